@@ -245,22 +245,44 @@ func ruleCascade(w *World, r *Report) {
 
 // PROP-DW / RULE-DW
 func ruleDeleteWithProvenance(w *World, r *Report) {
-	r.Rule("PROP-DW", "core.SetProp builds a fact whose `deleteWith` contains the target id (a property dies with its target)", 1)
+	r.Rule("PROP-DW", "core.SetProp builds a fact whose `deleteWith` is a list with the target id among its elements (a property dies with its target; the cascade looks for {\"deleteWith\":[id]}, which neither a scalar nor a list of something else matches)", 1)
 	r.Rule("RULE-DW", "Location.AddRule copies the rule's `deleteWith` to the stored wrapper fact (a rule dies with what it names)", 1)
 	sp := w.Func("core", "SetProp")
 	idp := sp.Params[idParamIndex(sp)]
 	ok := false
 	allInstrs(sp, func(in ssa.Instruction) {
 		if mu, isMU := in.(*ssa.MapUpdate); isMU {
-			if s, isC := constKey(mu.Key); isC && s == "deleteWith" && dependsOn(mu.Value, func(x ssa.Value) bool { return x == ssa.Value(idp) }) {
-				ok = true
+			if s, isC := constKey(mu.Key); isC && s == "deleteWith" {
+				// a list (the cascade searches for {"deleteWith":[id]}, which a scalar does not match) one of whose
+				// elements is the target id
+				v := mu.Value
+				if mi, isMI := v.(*ssa.MakeInterface); isMI {
+					v = mi.X
+				}
+				if _, isSlice := v.Type().Underlying().(*types.Slice); isSlice {
+					if sl, isSl := v.(*ssa.Slice); isSl {
+						if al, isAl := sl.X.(*ssa.Alloc); isAl {
+							for _, ref := range *al.Referrers() {
+								if ia, isIA := ref.(*ssa.IndexAddr); isIA {
+									for _, r2 := range *ia.Referrers() {
+										if st, isSt := r2.(*ssa.Store); isSt && st.Addr == ssa.Value(ia) && dependsOn(st.Val, func(x ssa.Value) bool { return x == ssa.Value(idp) }) {
+											ok = true
+										}
+									}
+								}
+							}
+						}
+					} else if dependsOn(v, func(x ssa.Value) bool { return x == ssa.Value(idp) }) {
+						ok = true
+					}
+				}
 			}
 		}
 	})
 	if ok {
 		r.ok("PROP-DW", "fn="+fname(sp), w.Pos(sp.Pos()), "the property fact names its target in deleteWith")
 	} else {
-		r.violation("PROP-DW", "fn="+fname(sp), w.Pos(sp.Pos()), "SetProp no longer writes deleteWith:[id] into the property fact: properties outlive their target")
+		r.violation("PROP-DW", "fn="+fname(sp), w.Pos(sp.Pos()), "SetProp does not write a list containing the target id under deleteWith: properties (for example a rule's `disabled` flag) outlive their target, and a rule re-added under the id is born disabled")
 	}
 	ar := w.Method("core", "Location", "AddRule")
 	ruleParam := ar.Params[3]
